@@ -320,4 +320,42 @@ theorem loop_pdfInv (cfg : Cfg S D) (hw : ∀ k, WOps.lt (cfg.wNew k) (WOps.zero
 
 end
 
+section
+variable [WScale D]
+
+theorem solve_final [WScale D] (cfg : Cfg S D) (starts : Array S) (sc : Script S D) (budget : Nat) :
+    (solve cfg starts sc budget).final =
+      if (initSt cfg starts sc).1.tree.size = 0 then (initSt cfg starts sc).1
+      else loop cfg budget (initSt cfg starts sc).1 := by
+  unfold solve
+  simp only
+  split
+  · rfl
+  · split <;> rfl
+
+theorem final_pdfInv [WScale D] (cfg : Cfg S D) (hw : ∀ k, WOps.lt (cfg.wNew k) (WOps.zero : D) = false)
+    (starts : Array S) (sc : Script S D) (budget : Nat) : PdfInv cfg (solve cfg starts sc budget).final := by
+  rw [solve_final]
+  have hi := initSt_pdfInv cfg hw starts sc
+  split
+  · exact hi
+  · exact loop_pdfInv cfg hw budget _ hi
+
+theorem sample_ok_mem [WScale D] (s : Pdf D) (r : D) (h : Nat) (hs : s.sample r = .ok h) : h ∈ s.data := by
+  unfold Pdf.sample at hs
+  split at hs
+  · cases hs
+  · split at hs
+    · cases hs
+    · split at hs
+      · cases hs
+      · split at hs
+        · cases hs
+        · next h' hd =>
+          simp only [SampleRes.ok.injEq] at hs
+          subst hs
+          exact Array.mem_of_getElem? hd
+
+end
+
 end OmplModel.EST
